@@ -236,6 +236,9 @@ func (b *BoxLayout) HandleEvent(ev tcell.Event) bool {
 	case *EventWidgetContent:
 		// This can only have come from one of our children.
 		b.changed = true
+		// our own preferred size follows the child's, and the layout
+		// we are nested in asks for it as soon as it hears of this
+		b.layout()
 		b.PostEventWidgetContent(b)
 		return true
 	}
